@@ -424,7 +424,8 @@ def run_shard(shard, rec):
     # fault sites are enumerated per spec: every formula cell x every kind
     strategy = st.tuples(
         column_specs() if shard['kind'] == 'columns'
-        else wbspec.specs(max_formulas=7), st.booleans(), steps_strategy())
+        else wbspec.specs(max_formulas=7, with_computed=True),
+        st.booleans(), steps_strategy())
 
     def body(c):
         spec, iterative, steps = c
